@@ -1,6 +1,8 @@
 package kernel
 
 import (
+	"verif/sim/seams/simctx"
+
 	"encoding/json"
 	"fmt"
 	"os"
@@ -92,6 +94,7 @@ type Collector struct {
 	tier       string
 	Known      *KnownFindings `json:"-"`
 	knownSeen  map[string]bool
+	memAtMark  int64
 	lastMark   []byte
 	markNanos  atomic.Int64 // read by the watchdog goroutine
 	markMu     sync.Mutex   // guards lastMark/Unit snapshots for the watchdog
@@ -157,6 +160,11 @@ func (c *Collector) Violate(v *Violation) {
 	if v == nil {
 		return
 	}
+	if simctx.MemEvents.Load() != c.memAtMark {
+		// a run of this case was cut because of memory pressure at a timing-dependent point: not judged
+		c.Stats["cases_not_judged_memory_pressure"]++
+		return
+	}
 	v.Unit = c.Unit
 	if c.Known != nil {
 		if kf := c.Known.Match(v); kf != nil {
@@ -202,6 +210,8 @@ func (c *Collector) Violate(v *Violation) {
 // Mark records, outside the Go heap, which Case is about to execute, so that
 // a runtime fatal error of this process can be attributed.
 func (c *Collector) Mark(cs Case) {
+	simctx.Relieve()
+	c.memAtMark = simctx.MemEvents.Load()
 	c.markNanos.Store(time.Now().UnixNano())
 	if c.markFile == nil {
 		return
